@@ -826,3 +826,162 @@ pub fn any_doc(rng: &mut Rng) -> GenDoc {
         }
     }
 }
+
+// ---------------------------------------------------------------------------------------------
+// Mutating handler scripts
+// ---------------------------------------------------------------------------------------------
+
+pub const MUT_SELECTORS: &[&str] = &[
+    "*", "div", "p", "a", "span", "b", "li", "ul", "i", "em", "section", "h1", "x-foo", "td", "br",
+    "img", "input", "svg", "g", "path", "math", "mi", "script", "style", "title", "textarea",
+    "[id]", ".foo", "div > p", "div span", "a[href]", "p:first-child", "li:nth-child(2)",
+    "*:not(p)", "select", "option", "table", "tr", "body", "head", "html",
+];
+
+pub const NAME_STRINGS: &[&str] = &["x", "div", "new-name", "b", "A", "", "1a", "a b", "a>", "é", "span", "data-y", "id", "class"];
+
+pub fn el_op(rng: &mut Rng) -> ElOp {
+    match rng.below(22) {
+        0 => ElOp::Before(content(rng)),
+        1 => ElOp::After(content(rng)),
+        2 => ElOp::Prepend(content(rng)),
+        3 => ElOp::Append(content(rng)),
+        4 => ElOp::SetInner(content(rng)),
+        5 => ElOp::Replace(content(rng)),
+        6 => ElOp::Remove,
+        7 => ElOp::RemoveKeep,
+        8 | 9 => ElOp::SetAttr(rng.pick(NAME_STRINGS).into(), rng.pick(ATTR_VALUES).into()),
+        10 => ElOp::RemoveAttr(rng.pick(TREE_ATTRS).into()),
+        11 => ElOp::SetTagName(rng.pick(NAME_STRINGS).into()),
+        12 => ElOp::StBefore(content(rng)),
+        13 => ElOp::StAfter(content(rng)),
+        14 => ElOp::StReplace(content(rng)),
+        15 => ElOp::StRemove,
+        16 | 17 => {
+            let n = rng.small(2);
+            ElOp::OnEndTag((0..n).map(|_| et_op(rng)).collect())
+        }
+        18 => ElOp::Snapshot,
+        19 => ElOp::GetAttr(rng.pick(TREE_ATTRS).into()),
+        20 => ElOp::HasAttr(rng.pick(TREE_ATTRS).into()),
+        _ => ElOp::Before(content(rng)),
+    }
+}
+
+pub fn et_op(rng: &mut Rng) -> EtOp {
+    match rng.below(5) {
+        0 => EtOp::Before(content(rng)),
+        1 => EtOp::After(content(rng)),
+        2 => EtOp::Replace(content(rng)),
+        3 => EtOp::Remove,
+        _ => EtOp::SetName(rng.pick(&["x", "div", "b", "new-name"]).into()),
+    }
+}
+
+pub fn cm_op(rng: &mut Rng) -> CmOp {
+    match rng.below(5) {
+        0 => CmOp::Before(content(rng)),
+        1 => CmOp::After(content(rng)),
+        2 => CmOp::Replace(content(rng)),
+        3 => CmOp::Remove,
+        _ => CmOp::SetText(rng.pick(&["", "x", "new text", "a-b", "-->", "--!>", "é", "a--b", "-"]).into()),
+    }
+}
+
+/// Text ops whose effect does not depend on how the node is fragmented into chunks.
+pub fn tx_spec_frag_insensitive(rng: &mut Rng, sel: Option<String>) -> HandlerSpec {
+    match rng.below(3) {
+        0 => HandlerSpec::Text { sel, ops: vec![TxOp::Upper], when: TextWhen::Always },
+        1 => HandlerSpec::Text { sel, ops: vec![TxOp::Remove], when: TextWhen::Always },
+        _ => HandlerSpec::Text { sel, ops: vec![TxOp::After(content(rng))], when: TextWhen::LastOnly },
+    }
+}
+
+pub fn tx_op(rng: &mut Rng) -> TxOp {
+    match rng.below(6) {
+        0 => TxOp::Before(content(rng)),
+        1 => TxOp::After(content(rng)),
+        2 => TxOp::Replace(content(rng)),
+        3 => TxOp::Remove,
+        4 => TxOp::Upper,
+        _ => TxOp::SetStr(rng.pick(&["", "z", "new <text>", "é&"]).into()),
+    }
+}
+
+/// Random mutating + observing handler set. `frag_insensitive`: text scripts restricted so that
+/// the final output cannot legitimately depend on text-node fragmentation.
+pub fn mutators(rng: &mut Rng, frag_insensitive: bool) -> Vec<HandlerSpec> {
+    let mut v = vec![];
+    let n = rng.range(1, 4);
+    for _ in 0..n {
+        match rng.below(10) {
+            0..=4 => {
+                let k = rng.range(1, 3);
+                let sel = rng.pick(MUT_SELECTORS).to_string();
+                v.push(HandlerSpec::Element { sel, ops: (0..k).map(|_| el_op(rng)).collect() });
+            }
+            5 | 6 => {
+                let sel = if rng.bool() { Some(rng.pick(MUT_SELECTORS).to_string()) } else { None };
+                if frag_insensitive {
+                    v.push(tx_spec_frag_insensitive(rng, sel));
+                } else {
+                    let k = rng.range(1, 2);
+                    let when = if rng.chance(1, 4) { TextWhen::LastOnly } else { TextWhen::Always };
+                    v.push(HandlerSpec::Text { sel, ops: (0..k).map(|_| tx_op(rng)).collect(), when });
+                }
+            }
+            7 => {
+                let sel = if rng.bool() { Some(rng.pick(MUT_SELECTORS).to_string()) } else { None };
+                let k = rng.range(1, 2);
+                v.push(HandlerSpec::Comment { sel, ops: (0..k).map(|_| cm_op(rng)).collect() });
+            }
+            8 => v.push(HandlerSpec::Doctype { remove: rng.bool() }),
+            _ => v.push(HandlerSpec::End { ops: (0..rng.range(0, 2)).map(|_| content(rng)).collect() }),
+        }
+    }
+    if rng.chance(1, 3) {
+        v.extend(observers(rng));
+    }
+    v
+}
+
+/// Randomly bundle compatible neighbouring handlers into one registration struct.
+pub fn random_joins(rng: &mut Rng, hs: &[HandlerSpec]) -> Vec<usize> {
+    let mut v = vec![];
+    for i in 1..hs.len() {
+        if rng.chance(1, 3) {
+            v.push(i);
+        }
+    }
+    v
+}
+
+/// Observer set that contains bundles on purpose: element+text+comments on one selector, and a
+/// document bundle.
+pub fn bundled_observers(rng: &mut Rng) -> (Vec<HandlerSpec>, Vec<usize>) {
+    let sel = rng.pick(OBS_SELECTORS).to_string();
+    let mut hs = vec![];
+    let mut joins = vec![];
+    let mut kinds = vec![0, 1, 2];
+    rng.shuffle(&mut kinds);
+    let k = rng.range(2, 3);
+    for (i, kind) in kinds.into_iter().take(k).enumerate() {
+        hs.push(match kind {
+            0 => HandlerSpec::Element { sel: sel.clone(), ops: vec![] },
+            1 => HandlerSpec::Text { sel: Some(sel.clone()), ops: vec![], when: TextWhen::Always },
+            _ => HandlerSpec::Comment { sel: Some(sel.clone()), ops: vec![] },
+        });
+        if i > 0 {
+            joins.push(hs.len() - 1);
+        }
+    }
+    if rng.bool() {
+        let base = hs.len();
+        hs.push(HandlerSpec::Doctype { remove: false });
+        hs.push(HandlerSpec::Comment { sel: None, ops: vec![] });
+        hs.push(HandlerSpec::Text { sel: None, ops: vec![], when: TextWhen::Always });
+        hs.push(HandlerSpec::End { ops: vec![] });
+        joins.extend([base + 1, base + 2, base + 3]);
+    }
+    (hs, joins)
+}
